@@ -73,12 +73,12 @@ def setDiffRaw (db : DB) (ks : List Bytes) (now : Int) : List Bytes :=
     | none => []
     | some r => ((setRows db r.id).map (·.elem)).filter (fun e => !oelems.contains e)
 
-/-- `sqlInter`: `having count(distinct kid) = len(keys)` -/
+/-- `sqlInter`: `having count(distinct kid) = countDistinct(keys)` -/
 def setInterRaw (db : DB) (ks : List Bytes) (now : Int) : List Bytes :=
   let ids := setKids db ks now
   let rows := db.sets.filter (fun r => ids.contains r.kid)
   let elems := sortBy bytesLt (dedup (rows.map (·.elem)))
-  elems.filter (fun e => ((rows.filter (fun r => r.elem == e)).length : Int) == ks.length)
+  elems.filter (fun e => ((rows.filter (fun r => r.elem == e)).length : Int) == (dedup ks).length)
 
 /-- `sqlUnion` -/
 def setUnionRaw (db : DB) (ks : List Bytes) (now : Int) : List Bytes :=
